@@ -2,7 +2,7 @@
    declarative reading of the jar, the work-list against the transitive closure, the bridge
    predicate, and the collecting loop (bridge_iff and its near-miss corollaries). *)
 From FB Require Import C15.Model.
-From Coq Require Import Relations.Relation_Operators.
+From Coq Require Import Relations.Relation_Operators Arith.PeanoNat.
 
 (* ------------------------------------------------------------------ *)
 (* boolean equalities *)
@@ -252,4 +252,505 @@ Lemma decided J r : get_specialized J = Ok r ->
 Proof.
   unfold get_specialized. intros Hf b a Hg.
   apply (loop_ok _ _ _ _ _ _ _ _ Hf). apply (map_get_Some_In mref_eqb mref_eqb_dec). exact Hg.
+Qed.
+
+
+(* ------------------------------------------------------------------ *)
+(* declarative reading of the jar *)
+Definition in_jar (J : jar) (c : str) : Prop := exists jc, In jc J /\ jc_name jc = c.
+(* c names p as its super class (other than java/lang/Object) or as one of its interfaces *)
+Definition parent (J : jar) (c p : str) : Prop := exists jc, In jc J /\ jc_name jc = c /\ In p (edges_of jc).
+Definition ancestor (J : jar) : str -> str -> Prop := clos_trans_1n str (parent J).
+
+(* the access flags the index holds for a method reference: the last method of the jar with
+   that class, name and descriptor (unique in a jar with distinct classes and methods) *)
+Definition access_of (J : jar) (b : mref) : option acc :=
+  fold_left (fun o e => if mref_eqb b (fst e) then Some (jm_acc (snd e)) else o) (jar_methods J) None.
+(* the body of (some method with reference) b invokes the object-class method r *)
+Definition invoked_in (l : list (mref * jmeth)) (b r : mref) : Prop :=
+  exists m c, In (b, m) l /\ jm_code m = Some c /\ In r c /\ is_obj_ref r = true.
+Definition invoked (J : jar) : mref -> mref -> Prop := invoked_in (jar_methods J).
+
+(* ---- ix_methods ---- *)
+Lemma fold_put_get {K V T} (eqb : K -> K -> bool) (H : eq_dec_b eqb) (f : T -> K) (g : T -> V) (k : K) (l : list T) : forall init,
+  map_get eqb k (fold_left (fun ms e => map_put eqb (f e) (g e) ms) l init)
+  = fold_left (fun o e => if eqb k (f e) then Some (g e) else o) l (map_get eqb k init).
+Proof.
+  induction l as [|e l IH]; intros init; cbn [fold_left]; [reflexivity|].
+  rewrite IH. f_equal. destruct (eqb k (f e)) eqn:E.
+  - apply H in E. subst k. apply (map_get_put_same eqb H).
+  - apply (map_get_put_other eqb H). intros ->. rewrite (eqb_refl_of eqb H) in E. discriminate.
+Qed.
+
+Lemma ix_methods_get J b : map_get mref_eqb b (ix_methods J) = access_of J b.
+Proof. unfold ix_methods, access_of. rewrite (fold_put_get mref_eqb mref_eqb_dec). reflexivity. Qed.
+
+(* ---- ix_classes ---- *)
+Lemma ix_classes_spec J c : mem_str c (ix_classes J) = true <-> in_jar J c.
+Proof.
+  unfold mem_str, ix_classes, in_jar. rewrite (set_mem_In str_eqb str_eqb_dec), (set_extend_In str_eqb str_eqb_dec).
+  rewrite in_map_iff. cbn [In]. split.
+  - intros [(jc & E & Hi)|[]]. exists jc. auto.
+  - intros (jc & Hi & E). left. exists jc. auto.
+Qed.
+
+(* ---- ix_refs ---- *)
+Definition refs_inv (l : list (mref * jmeth)) (rs : list (mref * list mref)) : Prop :=
+  forall b, match map_get mref_eqb b rs with
+            | Some c => NoDup c /\ (forall r, In r c <-> invoked_in l b r)
+            | None => forall r, ~ invoked_in l b r
+            end.
+
+Lemma invoked_in_snoc l e b r :
+  invoked_in (l ++ [e]) b r <->
+  invoked_in l b r \/ (fst e = b /\ exists c, jm_code (snd e) = Some c /\ In r c /\ is_obj_ref r = true).
+Proof.
+  unfold invoked_in. split.
+  - intros (m & c & Hi & Hc & Hr & Ho). apply in_app_iff in Hi. destruct Hi as [Hi|[Ee|[]]].
+    + left. exists m, c. auto.
+    + right. subst e. cbn [fst snd]. split; [reflexivity|]. exists c. auto.
+  - intros [(m & c & Hi & Hc & Hr & Ho)|(<- & c & Hc & Hr & Ho)].
+    + exists m, c. rewrite in_app_iff. auto.
+    + exists (snd e), c. rewrite in_app_iff. split; [right; left; destruct e; reflexivity|auto].
+Qed.
+
+Lemma refs_step l rs e : refs_inv l rs ->
+  refs_inv (l ++ [e]) (match jm_code (snd e) with
+                       | Some c => map_upd mref_eqb (fst e) [] (set_extend mref_eqb (filter is_obj_ref c)) rs
+                       | None => rs
+                       end).
+Proof.
+  intros Hinv b. specialize (Hinv b). destruct (jm_code (snd e)) as [c|] eqn:Ec.
+  - destruct (mref_eqb b (fst e)) eqn:Eb.
+    + apply mref_eqb_eq in Eb. subst b. rewrite (map_get_upd_same mref_eqb mref_eqb_dec).
+      destruct (map_get mref_eqb (fst e) rs) as [c0|].
+      * destruct Hinv as [Hn Hin]. split; [apply (set_extend_NoDup mref_eqb mref_eqb_dec); exact Hn|].
+        intros r. rewrite (set_extend_In mref_eqb mref_eqb_dec), filter_In, invoked_in_snoc, Hin.
+        split.
+        -- intros [[Hr Ho]|Hi]; [right; split; [reflexivity|exists c; auto]|left; exact Hi].
+        -- intros [Hi|(_ & c' & Hc' & Hr & Ho)]; [right; exact Hi|]. rewrite Ec in Hc'. injection Hc' as <-. left. auto.
+      * split; [apply (set_extend_NoDup mref_eqb mref_eqb_dec); constructor|].
+        intros r. rewrite (set_extend_In mref_eqb mref_eqb_dec), filter_In, invoked_in_snoc. cbn [In].
+        split.
+        -- intros [[Hr Ho]|[]]. right. split; [reflexivity|exists c; auto].
+        -- intros [Hi|(_ & c' & Hc' & Hr & Ho)]; [exfalso; exact (Hinv r Hi)|]. rewrite Ec in Hc'. injection Hc' as <-. left. auto.
+    + assert (Hne : b <> fst e) by (intros ->; rewrite (eqb_refl_of mref_eqb mref_eqb_dec) in Eb; discriminate).
+      rewrite (map_get_upd_other mref_eqb mref_eqb_dec _ _ _ _ _ Hne).
+      destruct (map_get mref_eqb b rs) as [c0|].
+      * destruct Hinv as [Hn Hin]. split; [exact Hn|]. intros r. rewrite invoked_in_snoc, Hin.
+        split; [auto|intros [Hi|(E & _)]; [exact Hi|congruence]].
+      * intros r. rewrite invoked_in_snoc. intros [Hi|(E & _)]; [exact (Hinv r Hi)|congruence].
+  - destruct (map_get mref_eqb b rs) as [c0|].
+    + destruct Hinv as [Hn Hin]. split; [exact Hn|]. intros r. rewrite invoked_in_snoc, Hin.
+      split; [auto|intros [Hi|(_ & c & Hc & _)]; [exact Hi|congruence]].
+    + intros r. rewrite invoked_in_snoc. intros [Hi|(_ & c & Hc & _)]; [exact (Hinv r Hi)|congruence].
+Qed.
+
+Lemma refs_fold rest : forall pre rs, refs_inv pre rs ->
+  refs_inv (pre ++ rest)
+    (fold_left (fun rs e => match jm_code (snd e) with
+                            | Some l => map_upd mref_eqb (fst e) [] (set_extend mref_eqb (filter is_obj_ref l)) rs
+                            | None => rs
+                            end) rest rs).
+Proof.
+  induction rest as [|e rest IH]; intros pre rs Hinv; cbn [fold_left].
+  - rewrite app_nil_r. exact Hinv.
+  - replace (pre ++ e :: rest) with ((pre ++ [e]) ++ rest) by (rewrite <- app_assoc; reflexivity).
+    apply IH, refs_step, Hinv.
+Qed.
+
+Lemma ix_refs_spec J : refs_inv (jar_methods J) (ix_refs J).
+Proof.
+  unfold ix_refs. apply (refs_fold (jar_methods J) [] []).
+  intros b. cbn [map_get]. intros r (m & c & [] & _).
+Qed.
+
+(* "the distinct object-class methods b invokes are exactly {s}" *)
+Lemma refs_single J b s :
+  map_get mref_eqb b (ix_refs J) = Some [s] <-> (forall r, invoked J b r <-> r = s).
+Proof.
+  pose proof (ix_refs_spec J b) as H. unfold invoked. split.
+  - intros E. rewrite E in H. destruct H as [_ Hin]. intros r. rewrite <- Hin. cbn [In].
+    split; [intros [<-|[]]; reflexivity|intros ->; left; reflexivity].
+  - intros Hs. destruct (map_get mref_eqb b (ix_refs J)) as [c|].
+    + destruct H as [Hn Hin]. f_equal.
+      assert (Hall : forall r, In r c <-> r = s) by (intros r; rewrite Hin; apply Hs).
+      destruct c as [|x c].
+      * exfalso. apply (proj2 (Hall s) eq_refl).
+      * assert (x = s) by (apply Hall; left; reflexivity). subst x. destruct c as [|y c]; [reflexivity|].
+        assert (y = s) by (apply Hall; right; left; reflexivity). subst y.
+        inversion Hn as [|? ? Hx _]. exfalso. apply Hx. left. reflexivity.
+    + exfalso. apply (H s). apply Hs. reflexivity.
+Qed.
+
+
+(* ---- hierarchy tables ---- *)
+Definition graph_inv (R : str -> str -> Prop) (G : graph) : Prop :=
+  forall c, match map_get str_eqb c G with
+            | Some ys => forall y, In y ys <-> R c y
+            | None => forall y, ~ R c y
+            end.
+
+Lemma graph_inv_ext (R R' : str -> str -> Prop) G :
+  (forall x y, R x y <-> R' x y) -> graph_inv R G -> graph_inv R' G.
+Proof.
+  intros He Hi c. specialize (Hi c). destruct (map_get str_eqb c G) as [ys|].
+  - intros y. rewrite Hi. apply He.
+  - intros y Hy. apply (Hi y), He, Hy.
+Qed.
+
+Lemma upd_edge G R a b : graph_inv R G ->
+  graph_inv (fun x y => R x y \/ (x = a /\ y = b)) (map_upd str_eqb a [] (set_add str_eqb b) G).
+Proof.
+  intros Hi c. specialize (Hi c). destruct (str_eqb c a) eqn:E.
+  - apply str_eqb_eq in E. subst c. rewrite (map_get_upd_same str_eqb str_eqb_dec).
+    destruct (map_get str_eqb a G) as [ys|]; intros y; rewrite (set_add_In str_eqb str_eqb_dec).
+    + rewrite Hi. split; [intros [->|Hr]; auto|intros [Hr|[_ ->]]; auto].
+    + cbn [In]. split; [intros [->|[]]; auto|intros [Hr|[_ ->]]; [exfalso; exact (Hi y Hr)|auto]].
+  - assert (Hne : c <> a) by (intros ->; rewrite str_eqb_refl in E; discriminate).
+    rewrite (map_get_upd_other str_eqb str_eqb_dec _ _ _ _ _ Hne).
+    destruct (map_get str_eqb c G) as [ys|].
+    + intros y. rewrite Hi. split; [auto|intros [Hr|[-> _]]; [exact Hr|contradiction]].
+    + intros y [Hr|[-> _]]; [exact (Hi y Hr)|contradiction].
+Qed.
+
+Lemma fold_parents name es : forall G R, graph_inv R G ->
+  graph_inv (fun x y => R x y \/ (x = name /\ In y es))
+            (fold_left (fun P p => map_upd str_eqb name [] (set_add str_eqb p) P) es G).
+Proof.
+  induction es as [|e es IH]; intros G R Hi; cbn [fold_left].
+  - apply (graph_inv_ext R); [|exact Hi]. intros x y. cbn [In]. tauto.
+  - refine (graph_inv_ext _ _ _ _ (IH _ _ (upd_edge G R name e Hi))).
+    intros x y. cbn [In]. cbv beta. split.
+    + intros [[Hr|[-> ->]]|[-> Hin]]; auto.
+    + intros [Hr|[-> [->|Hin]]]; auto.
+Qed.
+
+Lemma fold_children name es : forall G R, graph_inv R G ->
+  graph_inv (fun x y => R x y \/ (In x es /\ y = name))
+            (fold_left (fun C p => map_upd str_eqb p [] (set_add str_eqb name) C) es G).
+Proof.
+  induction es as [|e es IH]; intros G R Hi; cbn [fold_left].
+  - apply (graph_inv_ext R); [|exact Hi]. intros x y. cbn [In]. tauto.
+  - refine (graph_inv_ext _ _ _ _ (IH _ _ (upd_edge G R e name Hi))).
+    intros x y. cbn [In]. cbv beta. split.
+    + intros [[Hr|[-> ->]]|[Hin ->]]; auto.
+    + intros [Hr|[[->|Hin] ->]]; auto.
+Qed.
+
+Lemma parent_snoc pre c x y :
+  parent (pre ++ [c]) x y <-> parent pre x y \/ (x = jc_name c /\ In y (edges_of c)).
+Proof.
+  unfold parent. split.
+  - intros (jc & Hi & Hn & He). apply in_app_iff in Hi. destruct Hi as [Hi|[->|[]]].
+    + left. exists jc. auto.
+    + right. auto.
+  - intros [(jc & Hi & Hn & He)|[-> He]].
+    + exists jc. rewrite in_app_iff. auto.
+    + exists c. rewrite in_app_iff. cbn [In]. auto.
+Qed.
+
+Lemma parents_fold rest : forall pre G, graph_inv (parent pre) G ->
+  graph_inv (parent (pre ++ rest)) (fold_left store_parents rest G).
+Proof.
+  induction rest as [|c rest IH]; intros pre G Hi; cbn [fold_left].
+  - rewrite app_nil_r. exact Hi.
+  - replace (pre ++ c :: rest) with ((pre ++ [c]) ++ rest) by (rewrite <- app_assoc; reflexivity).
+    apply IH. unfold store_parents.
+    refine (graph_inv_ext _ _ _ _ (fold_parents (jc_name c) (edges_of c) G _ Hi)).
+    intros x y. cbv beta. rewrite parent_snoc. tauto.
+Qed.
+
+Lemma children_fold rest : forall pre G, graph_inv (fun p c => parent pre c p) G ->
+  graph_inv (fun p c => parent (pre ++ rest) c p) (fold_left store_children rest G).
+Proof.
+  induction rest as [|c rest IH]; intros pre G Hi; cbn [fold_left].
+  - rewrite app_nil_r. exact Hi.
+  - replace (pre ++ c :: rest) with ((pre ++ [c]) ++ rest) by (rewrite <- app_assoc; reflexivity).
+    apply IH. unfold store_children.
+    refine (graph_inv_ext _ _ _ _ (fold_children (jc_name c) (edges_of c) G _ Hi)).
+    intros x y. cbv beta. rewrite parent_snoc. tauto.
+Qed.
+
+Lemma parent_nil x y : ~ parent [] x y.
+Proof. intros (jc & [] & _). Qed.
+
+Lemma ix_parents_spec J : graph_inv (parent J) (ix_parents J).
+Proof.
+  unfold ix_parents. apply (parents_fold J [] []). intros c. cbn [map_get]. intros y. apply parent_nil.
+Qed.
+
+Lemma ix_children_spec J : graph_inv (fun p c => parent J c p) (ix_children J).
+Proof.
+  unfold ix_children. apply (children_fold J [] []). intros c. cbn [map_get]. intros y. apply parent_nil.
+Qed.
+
+(* ---- the work-list computes the transitive closure (as a set) ---- *)
+Lemma t1n_unfold (R : str -> str -> Prop) c x :
+  clos_trans_1n str R c x <-> R c x \/ exists y, R c y /\ clos_trans_1n str R y x.
+Proof.
+  split.
+  - intros H. destruct H as [y Hr|y z Hr Ht]; [left; exact Hr|right; exists y; auto].
+  - intros [Hr|(y & Hr & Ht)]; [apply t1n_step; exact Hr|apply (t1n_trans _ _ _ y); assumption].
+Qed.
+
+Lemma walk_spec R G : graph_inv R G -> forall fuel stack out r,
+  walk fuel G stack out = Ok r ->
+  forall x, In x r <-> In x out \/ exists c, In c stack /\ clos_trans_1n str R c x.
+Proof.
+  intros Hg fuel. induction fuel as [|f IH]; intros stack out r Hw x.
+  - destruct stack as [|c q]; cbn [walk] in Hw; [|discriminate]. injection Hw as ->.
+    split; [auto|intros [Hi|(c & [] & _)]; exact Hi].
+  - destruct stack as [|c q]; cbn [walk] in Hw.
+    + injection Hw as ->. split; [auto|intros [Hi|(c & [] & _)]; exact Hi].
+    + pose proof (Hg c) as Hc. destruct (map_get str_eqb c G) as [ys|].
+      * rewrite (IH _ _ _ Hw x). rewrite in_app_iff. split.
+        -- intros [[Hi|Hi]|(c' & Hc' & Ht)].
+           ++ left. exact Hi.
+           ++ right. exists c. split; [left; reflexivity|]. apply t1n_step, Hc, Hi.
+           ++ apply in_app_iff in Hc'. destruct Hc' as [Hc'|Hc'].
+              ** right. exists c. split; [left; reflexivity|]. apply (t1n_trans _ _ _ c'); [|exact Ht].
+                 apply Hc. apply in_rev. exact Hc'.
+              ** right. exists c'. split; [right; exact Hc'|exact Ht].
+        -- intros [Hi|(c' & [<-|Hc'] & Ht)].
+           ++ left. left. exact Hi.
+           ++ apply t1n_unfold in Ht. destruct Ht as [Hr|(y & Hr & Ht)].
+              ** left. right. apply Hc. exact Hr.
+              ** right. exists y. split; [|exact Ht]. apply in_app_iff. left. apply in_rev. rewrite rev_involutive. apply Hc. exact Hr.
+           ++ right. exists c'. split; [|exact Ht]. apply in_app_iff. right. exact Hc'.
+      * rewrite (IH _ _ _ Hw x). split.
+        -- intros [Hi|(c' & Hc' & Ht)]; [left; exact Hi|right; exists c'; split; [right; exact Hc'|exact Ht]].
+        -- intros [Hi|(c' & [<-|Hc'] & Ht)]; [left; exact Hi| |right; exists c'; split; assumption].
+           exfalso. apply t1n_unfold in Ht. destruct Ht as [Hr|(y & Hr & _)]; exact (Hc _ Hr).
+Qed.
+
+Lemma ancestors_spec J fuel s l : walk fuel (ix_parents J) [s] [] = Ok l -> forall a, In a l <-> ancestor J s a.
+Proof.
+  intros Hw a. rewrite (walk_spec _ _ (ix_parents_spec J) _ _ _ _ Hw a). cbn [In]. unfold ancestor. split.
+  - intros [[]|(c & [<-|[]] & Ht)]. exact Ht.
+  - intros Ht. right. exists s. auto.
+Qed.
+
+
+Lemma aty_eqb_eq a b : aty_eqb a b = true <-> a = b.
+Proof.
+  destruct a, b; cbn [aty_eqb]; try (split; [reflexivity|reflexivity]); try (split; discriminate).
+  rewrite str_eqb_eq. split; [intros ->; reflexivity|intros [= ->]; reflexivity].
+Qed.
+
+Lemma ty_eqb_eq a b : ty_eqb a b = true <-> a = b.
+Proof.
+  destruct a, b; cbn [ty_eqb]; try (split; [reflexivity|reflexivity]); try (split; discriminate).
+  - rewrite str_eqb_eq. split; [intros ->; reflexivity|intros [= ->]; reflexivity].
+  - rewrite andb_true_iff, N.eqb_eq, aty_eqb_eq. split; [intros [-> ->]; reflexivity|intros [= -> ->]; auto].
+Qed.
+
+(* are_types_bridge_compatible, declaratively *)
+Definition compatP (J : jar) (tb ts : ty) : Prop :=
+  tb = ts \/
+  exists b s, tb = TObj b /\ ts = TObj s /\
+    (b = s_object \/ ~ in_jar J b \/ exists a, ancestor J s a /\ (a = b \/ ~ in_jar J a)).
+
+Definition ret_compatP (J : jar) (rb rs : option ty) : Prop :=
+  match rb, rs with
+  | Some tb, Some ts => compatP J tb ts
+  | None, None => True
+  | _, _ => False
+  end.
+
+(* is_potential_bridge, declaratively: inheritable, same arity, position-wise compatible *)
+Definition potentialP (J : jar) (b : mref) (a : acc) (s : mref) : Prop :=
+  a_private a = false /\ a_final a = false /\ a_static a = false /\
+  exists pb rb ps rs,
+    parse_method (mr_desc b) = Ok (pb, rb) /\ parse_method (mr_desc s) = Ok (ps, rs) /\
+    Forall2 (compatP J) pb ps /\ ret_compatP J rb rs.
+
+Lemma Forall2_len {A B} (R : A -> B -> Prop) l l' : Forall2 R l l' -> length l = length l'.
+Proof. induction 1; cbn [length]; congruence. Qed.
+
+Lemma not_in_jar J c : mem_str c (ix_classes J) = false <-> ~ in_jar J c.
+Proof.
+  rewrite <- ix_classes_spec. destruct (mem_str c (ix_classes J)); split; congruence.
+Qed.
+
+Lemma compat_spec J fuel tb ts v :
+  compat fuel (ix_classes J) (ix_parents J) tb ts = Ok v -> (v = true <-> compatP J tb ts).
+Proof.
+  unfold compat. destruct (ty_eqb tb ts) eqn:Et.
+  - apply ty_eqb_eq in Et. intros [= <-]. split; [intros _; left; exact Et|reflexivity].
+  - assert (Hne : tb <> ts) by (intros E; apply ty_eqb_eq in E; congruence).
+    assert (Hother : (forall b s, ~ (tb = TObj b /\ ts = TObj s)) -> Ok false = Ok v -> (v = true <-> compatP J tb ts)).
+    { intros Hno [= <-]. split; [discriminate|]. intros [E|(b & s & E1 & E2 & _)]; [contradiction|]. exfalso. exact (Hno b s (conj E1 E2)). }
+    destruct tb as [| | | | | | | |b|d x]; try (apply Hother; intros b0 s0 [E1 E2]; discriminate).
+    destruct ts as [| | | | | | | |s|d x]; try (apply Hother; intros b0 s0 [E1 E2]; discriminate).
+    clear Hother. destruct (str_eqb b s_object) eqn:Eo.
+    + apply str_eqb_eq in Eo. intros [= <-]. split; [intros _|reflexivity].
+      right. exists b, s. auto.
+    + destruct (mem_str b (ix_classes J)) eqn:Em; cbn [negb].
+      2:{ intros [= <-]. split; [intros _|reflexivity]. right. exists b, s. split; [reflexivity|]. split; [reflexivity|].
+          right. left. apply not_in_jar. exact Em. }
+      destruct (walk fuel (ix_parents J) [s] []) as [l|] eqn:Ew; [|discriminate].
+      intros [= <-]. rewrite existsb_exists. split.
+      * intros (a & Ha & Hc). right. exists b, s. split; [reflexivity|]. split; [reflexivity|]. right. right.
+        exists a. split; [apply (ancestors_spec J fuel s l Ew); exact Ha|].
+        apply orb_true_iff in Hc. destruct Hc as [Hc|Hc].
+        -- left. apply str_eqb_eq in Hc. congruence.
+        -- right. apply not_in_jar. destruct (mem_str a (ix_classes J)); [discriminate|reflexivity].
+      * intros [E|(b0 & s0 & [= <-] & [= <-] & [E|[Hn|(a & Ha & Hc)]])].
+        -- contradiction.
+        -- subst b. rewrite str_eqb_refl in Eo. discriminate.
+        -- exfalso. apply Hn. apply ix_classes_spec. exact Em.
+        -- exists a. split; [apply (ancestors_spec J fuel s l Ew); exact Ha|].
+           apply orb_true_iff. destruct Hc as [->|Hn]; [left; apply str_eqb_refl|right].
+           apply not_in_jar in Hn. rewrite Hn. reflexivity.
+Qed.
+
+Lemma compat_all_spec J fuel pb : forall ps v,
+  length pb = length ps ->
+  compat_all fuel (ix_classes J) (ix_parents J) pb ps = Ok v -> (v = true <-> Forall2 (compatP J) pb ps).
+Proof.
+  induction pb as [|b pb IH]; intros [|s ps] v Hl; cbn [length] in Hl; try discriminate; cbn [compat_all].
+  - intros [= <-]. split; [constructor|reflexivity].
+  - destruct (compat fuel (ix_classes J) (ix_parents J) b s) as [[|]|] eqn:Ec; [| |discriminate].
+    + intros Hr. rewrite (IH ps v (eq_add_S _ _ Hl) Hr). split.
+      * intros HF. constructor; [|exact HF]. apply (compat_spec _ _ _ _ _ Ec). reflexivity.
+      * intros HF. inversion HF; subst. assumption.
+    + intros [= <-]. split; [discriminate|]. intros HF. inversion HF as [|? ? ? ? Hc _]; subst.
+      apply (compat_spec _ _ _ _ _ Ec) in Hc. discriminate.
+Qed.
+
+Lemma potential_spec J fuel b a s v :
+  is_potential_bridge fuel (ix_classes J) (ix_parents J) b a s = Ok v -> (v = true <-> potentialP J b a s).
+Proof.
+  unfold is_potential_bridge, potentialP.
+  destruct (a_private a) eqn:E1; cbn [orb].
+  { intros [= <-]. split; [discriminate|]. intros (H & _). discriminate. }
+  destruct (a_final a) eqn:E2; cbn [orb].
+  { intros [= <-]. split; [discriminate|]. intros (_ & H & _). discriminate. }
+  destruct (a_static a) eqn:E3.
+  { intros [= <-]. split; [discriminate|]. intros (_ & _ & H & _). discriminate. }
+  destruct (parse_method (mr_desc b)) as [[pb rb]|] eqn:Pb.
+  2:{ intros [= <-]. split; [discriminate|]. intros (_ & _ & _ & pb & rb & ps & rs & H & _). discriminate. }
+  destruct (parse_method (mr_desc s)) as [[ps rs]|] eqn:Ps.
+  2:{ intros [= <-]. split; [discriminate|]. intros (_ & _ & _ & pb' & rb' & ps & rs & _ & H & _). discriminate. }
+  destruct (Nat.eqb (length pb) (length ps)) eqn:El; cbn [negb].
+  2:{ intros [= <-]. split; [discriminate|]. intros (_ & _ & _ & pb' & rb' & ps' & rs' & [= <- <-] & [= <- <-] & HF & _).
+      apply Forall2_len in HF. apply Nat.eqb_neq in El. contradiction. }
+  apply Nat.eqb_eq in El.
+  destruct (compat_all fuel (ix_classes J) (ix_parents J) pb ps) as [[|]|] eqn:Ea; [| |discriminate].
+  - assert (HF : Forall2 (compatP J) pb ps) by (apply (compat_all_spec _ _ _ _ _ El Ea); reflexivity).
+    destruct rb as [tb|], rs as [ts|].
+    + intros Hc. rewrite (compat_spec _ _ _ _ _ Hc). split.
+      * intros Hp. repeat split. exists pb, (Some tb), ps, (Some ts). auto.
+      * intros (_ & _ & _ & pb' & rb' & ps' & rs' & [= <- <-] & [= <- <-] & _ & Hr). exact Hr.
+    + intros [= <-]. split; [discriminate|].
+      intros (_ & _ & _ & pb' & rb' & ps' & rs' & [= <- <-] & [= <- <-] & _ & Hr). destruct Hr.
+    + intros [= <-]. split; [discriminate|].
+      intros (_ & _ & _ & pb' & rb' & ps' & rs' & [= <- <-] & [= <- <-] & _ & Hr). destruct Hr.
+    + intros [= <-]. split; [intros _|reflexivity]. repeat split. exists pb, None, ps, None. cbn. auto.
+  - intros [= <-]. split; [discriminate|].
+    intros (_ & _ & _ & pb' & rb' & ps' & rs' & [= <- <-] & [= <- <-] & HF & _).
+    apply (compat_all_spec _ _ _ _ _ El Ea) in HF. discriminate.
+Qed.
+
+Lemma decide_char J fuel b a o :
+  decide fuel (ix_classes J) (ix_parents J) (ix_refs J) b a = Ok o ->
+  forall s, o = Some s <->
+    a_synthetic a = true /\ map_get mref_eqb b (ix_refs J) = Some [s] /\ (a_bridge a = true \/ potentialP J b a s).
+Proof.
+  unfold decide. destruct (a_synthetic a) eqn:Es; cbn [negb].
+  2:{ intros [= <-] s. split; [discriminate|]. intros (H & _). discriminate. }
+  destruct (map_get mref_eqb b (ix_refs J)) as [[|s1 [|s2 c]]|] eqn:Er;
+    try (intros [= <-] s; split; [discriminate|]; intros (_ & H & _); discriminate).
+  destruct (a_bridge a) eqn:Eb.
+  - intros [= <-] s. split; [intros [= <-]; auto|intros (_ & [= <-] & _); reflexivity].
+  - destruct (is_potential_bridge fuel (ix_classes J) (ix_parents J) b a s1) as [[|]|] eqn:Ep; [| |discriminate].
+    + intros [= <-] s. split.
+      * intros [= <-]. split; [reflexivity|]. split; [reflexivity|]. right. apply (potential_spec _ _ _ _ _ _ Ep). reflexivity.
+      * intros (_ & [= <-] & _). reflexivity.
+    + intros [= <-] s. split; [discriminate|]. intros (_ & [= <-] & [H|H]); [discriminate|].
+      apply (potential_spec _ _ _ _ _ _ Ep) in H. discriminate.
+Qed.
+
+(* (b, s) is a bridge pair of the jar, declaratively *)
+Definition is_bridge_pair (J : jar) (b s : mref) : Prop :=
+  exists a, access_of J b = Some a /\
+            a_synthetic a = true /\
+            (forall r, invoked J b r <-> r = s) /\
+            (a_bridge a = true \/ potentialP J b a s).
+
+Theorem bridge_iff J b2s s2b :
+  get_specialized J = Ok (b2s, s2b) ->
+  forall b s, In (b, s) b2s <-> is_bridge_pair J b s.
+Proof.
+  intros Hg b s. rewrite (bridge_index J b2s s2b Hg). unfold is_bridge_pair. split.
+  - intros (a & Ha & Hd). exists a. rewrite <- ix_methods_get. split; [exact Ha|].
+    destruct (proj1 (decide_char J _ _ _ _ Hd s) eq_refl) as (H1 & H2 & H3).
+    split; [exact H1|]. split; [apply refs_single; exact H2|exact H3].
+  - intros (a & Ha & H1 & H2 & H3). exists a. rewrite ix_methods_get. split; [exact Ha|].
+    rewrite <- ix_methods_get in Ha. destruct (decided J _ Hg b a Ha) as [o Ho].
+    rewrite Ho. f_equal. apply (decide_char J _ _ _ _ Ho s). split; [exact H1|]. split; [apply refs_single; exact H2|exact H3].
+Qed.
+
+(* ---- near misses: none of these methods becomes a bridge ---- *)
+
+
+Lemma miss_not_a_method J b2s s2b : get_specialized J = Ok (b2s, s2b) ->
+  forall b s, access_of J b = None -> ~ In (b, s) b2s.
+Proof. intros Hg b s Hn Hi. apply (bridge_iff J _ _ Hg) in Hi. destruct Hi as (a & Ha & _). congruence. Qed.
+
+Lemma miss_not_synthetic J b2s s2b : get_specialized J = Ok (b2s, s2b) ->
+  forall b a s, access_of J b = Some a -> a_synthetic a = false -> ~ In (b, s) b2s.
+Proof. intros Hg b a s Ha Hs Hi. apply (bridge_iff J _ _ Hg) in Hi. destruct Hi as (a' & Ha' & Hs' & _). congruence. Qed.
+
+Lemma miss_no_callee J b2s s2b : get_specialized J = Ok (b2s, s2b) ->
+  forall b s, (forall r, ~ invoked J b r) -> ~ In (b, s) b2s.
+Proof. intros Hg b s Hn Hi. apply (bridge_iff J _ _ Hg) in Hi. destruct Hi as (a & _ & _ & Hc & _). apply (Hn s), Hc. reflexivity. Qed.
+
+Lemma miss_several_callees J b2s s2b : get_specialized J = Ok (b2s, s2b) ->
+  forall b s r1 r2, invoked J b r1 -> invoked J b r2 -> r1 <> r2 -> ~ In (b, s) b2s.
+Proof.
+  intros Hg b s r1 r2 H1 H2 Hne Hi. apply (bridge_iff J _ _ Hg) in Hi. destruct Hi as (a & _ & _ & Hc & _).
+  apply Hc in H1, H2. congruence.
+Qed.
+
+Lemma miss_private_static_final J b2s s2b : get_specialized J = Ok (b2s, s2b) ->
+  forall b a s, access_of J b = Some a -> a_bridge a = false ->
+  a_private a || a_static a || a_final a = true -> ~ In (b, s) b2s.
+Proof.
+  intros Hg b a s Ha Hb Hf Hi. apply (bridge_iff J _ _ Hg) in Hi. destruct Hi as (a' & Ha' & _ & _ & [H|H]).
+  - congruence.
+  - assert (a' = a) by congruence. subst a'. destruct H as (E1 & E2 & E3 & _). rewrite E1, E2, E3 in Hf. discriminate.
+Qed.
+
+Lemma miss_arity J b2s s2b : get_specialized J = Ok (b2s, s2b) ->
+  forall b a s pb rb ps rs, access_of J b = Some a -> a_bridge a = false ->
+  parse_method (mr_desc b) = Ok (pb, rb) -> parse_method (mr_desc s) = Ok (ps, rs) ->
+  length pb <> length ps -> ~ In (b, s) b2s.
+Proof.
+  intros Hg b a s pb rb ps rs Ha Hb Pb Ps Hl Hi. apply (bridge_iff J _ _ Hg) in Hi. destruct Hi as (a' & Ha' & _ & _ & [H|H]).
+  - congruence.
+  - destruct H as (_ & _ & _ & pb' & rb' & ps' & rs' & E1 & E2 & HF & _).
+    rewrite Pb in E1. rewrite Ps in E2. injection E1 as <- <-. injection E2 as <- <-.
+    apply Forall2_len in HF. contradiction.
+Qed.
+
+Lemma miss_incompatible J b2s s2b : get_specialized J = Ok (b2s, s2b) ->
+  forall b a s pb rb ps rs, access_of J b = Some a -> a_bridge a = false ->
+  parse_method (mr_desc b) = Ok (pb, rb) -> parse_method (mr_desc s) = Ok (ps, rs) ->
+  ~ (Forall2 (compatP J) pb ps /\ ret_compatP J rb rs) -> ~ In (b, s) b2s.
+Proof.
+  intros Hg b a s pb rb ps rs Ha Hb Pb Ps Hn Hi. apply (bridge_iff J _ _ Hg) in Hi. destruct Hi as (a' & Ha' & _ & _ & [H|H]).
+  - congruence.
+  - destruct H as (_ & _ & _ & pb' & rb' & ps' & rs' & E1 & E2 & HF & Hr).
+    rewrite Pb in E1. rewrite Ps in E2. injection E1 as <- <-. injection E2 as <- <-. apply Hn. auto.
+Qed.
+
+Lemma miss_unparsable J b2s s2b : get_specialized J = Ok (b2s, s2b) ->
+  forall b a s, access_of J b = Some a -> a_bridge a = false ->
+  parse_method (mr_desc b) = Err \/ parse_method (mr_desc s) = Err -> ~ In (b, s) b2s.
+Proof.
+  intros Hg b a s Ha Hb Hp Hi. apply (bridge_iff J _ _ Hg) in Hi. destruct Hi as (a' & Ha' & _ & _ & [H|H]).
+  - congruence.
+  - destruct H as (_ & _ & _ & pb' & rb' & ps' & rs' & E1 & E2 & _). destruct Hp; congruence.
 Qed.
